@@ -7,11 +7,14 @@ from . import common
 from . import stft_common as sc
 
 PROP = "C04"
-MODULES = ["PdsVerif.Props.StftTie", "PdsVerif.Props.C04"]
-MODEL_MODULES = ["PdsVerif.Model.StftDrv"]
+MODULES = ["PdsVerif.Props.StftTie", "PdsVerif.Props.C04", "PdsVerif.Props.C04Si"]
+MODEL_MODULES = ["PdsVerif.Model.StftDrv", "PdsVerif.Model.Si"]
 REQUIRED = ["PdsVerif.StftTie." + n for n in ["full_pad_left_eq", "full_short_eq", "full_num_frames_eq", "full_pad_right_eq", "fin_pad_left_eq", "fin_num_frames_eq", "chunk_frame_length_eq", "chunk_num_frames_eq", "chunk_first_pad_eq", "torch_arith_eq_numpy", "torch_no_frame_eq"]] + ["PdsVerif.C04." + n for n in [
     "obs_equiv", "fresh_after_finalize", "history_independence", "finalize_not_started", "started_spec",
-    "guard_full", "guard_fbf", "full_pure", "next_utterance_eq_full"]]
+    "guard_full", "guard_fbf", "full_pure", "next_utterance_eq_full"]] + ["PdsVerif.C04Si." + n for n in [
+    "si_chunk_history_independent", "si_chunk_started", "si_finalize_idle", "si_stream_idle", "si_full_idle",
+    "si_full_history_independent", "si_stream_history_independent", "si_after_any_history", "si_full_refuses",
+    "si_started_spec"]]
 
 def translate(repo):
     """framing arithmetic of compute.py / torch.py -> Generated/StftConsts.lean (theorems: Props/StftTie.lean)"""
@@ -24,15 +27,18 @@ RULE = (
     "one STFT instance (tracer bank, integer window; every style / kaldi_shift, L<=9, S<=L) - random histories up to "
     "12 (quick) / 40 (thorough) calls and all histories of length <= 4 over a small alphabet in the thorough tier; "
     "each call's output and `started` are compared with the physical-buffer Lean model; then the same final "
-    "utterance is run on a fresh instance (bit-identical oracle). Library-bank and short-integration instances get "
-    "the bit-identity oracle only. Distinct by (config, history)."
+    "utterance is run on a fresh instance (bit-identical oracle). Short-integration computers with an integer tracer "
+    "bank (every configuration inside C03's WF): multi-utterance histories - utterances too short for a frame, empty "
+    "chunks, idle finalize, refused compute_full, whole and streamed utterances - op by op against the SI model "
+    "(Model/Si.lean through drivers/C03.lean, exact integers) and the next utterance against a fresh instance. "
+    "Library-bank instances get the bit-identity oracle only. Distinct by (config, history)."
 )
 TRUSTED = [
     "np.empty / stale buffer cells are modelled as arbitrary junk values; CPython aliasing semantics (inputs are passed by value in the model; read-only arrays are used in every run)",
     "tracer bank + integer window make each output row an exact integer",
 ]
 ASSUMPTIONS = [
-    "theorem scope: the STFT computer with 1 <= frame_shift <= frame_length; short-integration computers are covered by the bit-identity oracle runs (and by the SI model of C03 where proved)",
+    "theorem scope: the STFT computer with 1 <= frame_shift <= frame_length; the short-integration computer in every configuration (C04Si: no well-formedness hypothesis - the theorems are about the preamble's reset, for any outcome of the arithmetic)",
     "the dtype of the empty array returned by finalize() with no utterance in progress is the previous utterance's dtype (observed; features of the next utterance are unaffected)",
 ]
 LEVEL_TEXT = (
@@ -40,11 +46,16 @@ LEVEL_TEXT = (
     "abstract model (run_refines), finalize maps every state to the abstract initial state, hence any later call "
     "sequence answers exactly as on a fresh instance (history_independence, obs_equiv: stale cells are never read); "
     "`started` follows its specification; compute_full / frame_by_frame refuse mid-utterance leaving every cell, "
-    "counter and flag unchanged. The physical model is what the driver executes against the implementation."
+    "counter and flag unchanged. The physical model is what the driver executes against the implementation. "
+    "Short-integration computers (C04Si, about the line-by-line model of C03): the first chunk of an utterance, a "
+    "streamed utterance and compute_full return the same frames (and successor state) from ANY idle state; finalize, "
+    "a streamed utterance and compute_full always leave the computer idle; hence after any history of completed "
+    "utterances the next one is computed as on a fresh instance (si_after_any_history); compute_full mid-utterance "
+    "is refused. Tied by multi-utterance op-history correspondence (exact integers)."
 )
 LEVEL_NOTE = (
     "Trusted: junk-cell abstraction of np.empty, value semantics for inputs (checked with read-only arrays), tracer "
-    "components. SI computers: oracle runs only."
+    "components. SI: the model's `reset` mirrors _compute_preamble by hand (tied by the histories that leave every field dirty); library-bank SI computers: oracle runs."
 )
 TECHNIQUE = "Lean 4 refinement (physical buffer -> abstract state) + invariant induction over op histories; op-history correspondence"
 
@@ -220,6 +231,111 @@ def split(r, N):
     return [b - a for a, b in zip([0] + cuts, cuts + [N])]
 
 
+def si_history_ops(r, S, M, tr, N):
+    """a multi-utterance history for one SI computer over ONE signal x (the driver's `c<n>` ops consume x from the
+    start after every `z`): pre-utterances chosen to leave every piece of bookkeeping dirty, then the compared
+    utterance as compute_full and streamed"""
+    ops = []
+    small = [0, 1, 2, max(0, tr - S), max(0, tr - S) + 1, tr, tr + 1, S, S + 1, M, M + S - 1]
+    for _ in range(r.randrange(1, 4)):
+        u = r.random()
+        if u < 0.55:       # a short utterance (often too short to yield a frame), possibly in pieces / with empty chunks
+            k = min(N, r.choice(small))
+            parts = [k] if r.random() < 0.5 else [k // 2, 0, k - k // 2]
+            ops += ["c%d" % n for n in parts] + ["z"]
+        elif u < 0.7:      # a longer streamed utterance
+            k = r.randrange(0, N + 1)
+            ops += ["c%d" % k, "z"]
+        elif u < 0.8:      # finalize with nothing in progress
+            ops += ["z"]
+        elif u < 0.9:      # compute_full mid-utterance is refused; the utterance is then completed
+            ops += ["c%d" % min(N, r.choice(small)), "F", "z"]
+        else:              # a whole utterance through compute_full
+            ops += ["F"]
+    return ops
+
+
+def si_history_correspondence(ctx):
+    """short-integration computers, integer tracer banks: op histories through Model/Si.lean vs the implementation"""
+    from . import c03
+    r = ctx.rng
+    jobs = []
+    budget = ctx.scale(160, 3000)
+    tries = 0
+    while len(jobs) < budget and tries < 40 * budget:
+        tries += 1
+        case0 = c03.gen_config(r, ctx.tier)
+        try:
+            bank, comp = c03.make_int_computer(case0)
+            M, tr, D = c03.params_of(case0, bank, comp)
+        except Exception as e:
+            ctx.count("si_ctor_error:" + type(e).__name__)
+            continue
+        if D > 96 or (case0["energy"] and not tr < M) or not c03.wf(case0, M, tr, D):
+            continue   # outside WF the code's own assertions fire; C03's correspondence covers those configurations
+        S = case0["S"]
+        N = r.choice([M + S, 2 * S + 1, D, D + S + 1, r.randrange(1, 2 * D)])
+        case = dict(case0)
+        case["x"] = [r.randrange(-9, 10) for _ in range(N)]
+        pre = si_history_ops(r, S, M, tr, N)
+        probe = ["F"] + ["c%d" % n for n in c03.random_chunking(r, N)] + ["z"]
+        case["ops"] = pre + probe
+        jobs.append((case, comp, (M, tr, D), len(pre)))
+    d3 = common.Driver("C03")
+    outs = d3.run([c03.driver_line(case, M, tr, D, case["ops"]) for case, _, (M, tr, D), _ in jobs])
+    ctx.count("si_history_lines", len(jobs))
+    for (case, comp, (M, tr, D), npre), mout in zip(jobs, outs):
+        if ctx.out_of_time():
+            break
+        ops = case["ops"]
+        style = "centered" if case["centered"] else "causal"
+        pub = {k: case[k] for k in ("S", "filters", "centered", "pad", "floor", "energy", "power", "real", "window", "x", "ops")}
+        pub.update(computer="si", tracer="intfir", M=M, tr=tr, D=D)
+        ctx.case(pub, kind="si_history:%s:%s" % (style, "tr>=S" if tr >= case["S"] else "tr<S"))
+        for o in ops[:npre]:
+            ctx.count("si_pre_op:" + o[0])
+        impl = c03.run_ops_impl(comp, case["x"], ops)
+        conv = []
+        for st, val, code in impl:
+            if st == "ok" and not isinstance(val, list):
+                val = c03.int_rows(val)
+                if val is None:
+                    st = "non-integer"
+            conv.append((st, val, code))
+        tags = dict(computer="si", tracer="intfir", style=style)
+        # ---- oracle: the probe utterance on the history-laden instance vs a fresh instance (exact)
+        fresh = c03.make_int_computer(case)[1]
+        ref = c03.run_ops_impl(fresh, case["x"], ["F"])[0]
+        ref_rows = c03.int_rows(ref[1]) if ref[0] == "ok" else None
+        full = conv[npre]
+        if ref[0] == "ok" and ref_rows is not None:
+            if full[0] != "ok":
+                ctx.violation(pub, "no exception", full[0], "compute_full after a history of completed utterances raises",
+                              tags=dict(clause="raises", **tags))
+            elif full[1] != ref_rows:
+                ctx.violation(pub, ref_rows, full[1], "history-laden instance vs fresh instance on the next utterance (integer tracer, exact)",
+                              tags=dict(clause="history_independence", **tags))
+            sr = c03.stream_rows(conv[npre + 1:])
+            if sr is None:
+                ctx.violation(pub, "no exception", [c[0] for c in conv[npre + 1:]], "streaming the next utterance raises",
+                              tags=dict(clause="raises", **tags))
+            elif sr != ref_rows:
+                ctx.violation(pub, ref_rows, sr, "streamed next utterance vs fresh instance (integer tracer, exact)",
+                              tags=dict(clause="history_independence", **tags))
+        # ---- correspondence with the SI model, op by op
+        if mout == "bad-op":
+            ctx.mismatch(pub, mout, None, "driver rejected the op line")
+            continue
+        model = c03.parse_model(mout)
+        if len(model) != len(conv):
+            ctx.mismatch(pub, mout, None, "op count")
+            continue
+        for i, (m, c) in enumerate(zip(model, conv)):
+            if m[0] != c[0] or (m[0] == "ok" and (m[1] != c[1] or m[2] != c[2])):
+                ctx.mismatch(pub, m, c, "op %d (%s): SI model vs implementation" % (i, ops[i]))
+                break
+
+
 def si_previous_length_sweep(ctx):
     """every length 0 .. 3L-1 of a previous utterance, for one small short-integration configuration per frame style
     whose translation exceeds the frame shift (the overlap-save bookkeeping `_x_rem` / `_skip` / `_y_rem` that an
@@ -254,8 +370,9 @@ def si_previous_length_sweep(ctx):
 
 
 def library_history_oracle(ctx):
-    si_previous_length_sweep(ctx)
     """library banks, STFT and SI: history-laden instance vs fresh instance, bit-identical"""
+    si_history_correspondence(ctx)
+    si_previous_length_sweep(ctx)
     from pydrobert.speech import compute, filters
 
     r = ctx.rng
@@ -394,5 +511,16 @@ def replay(rp):
         d = common.Driver("C04")
         out = d.run([sc.ops_line(case["L"], case["S"], case["centered"], case["kaldi"], case["ops"])])[0]
         print("model:", sc.expected_from_model(out, case["ops"], case["window"], with_started=True))
+    if case.get("computer") == "si" and case.get("tracer") == "intfir" and "ops" in case:
+        from . import c03
+        bank, comp = c03.make_int_computer(case)
+        M, tr, D = c03.params_of(case, bank, comp)
+        impl = c03.run_ops_impl(comp, case["x"], case["ops"])
+        print("impl :", [(st, c03.int_rows(v) if st == "ok" and not isinstance(v, list) else v) for st, v, _ in impl])
+        out = common.Driver("C03").run([c03.driver_line(case, M, tr, D, case["ops"])])[0]
+        print("model:", [(m[0], m[1]) for m in c03.parse_model(out)])
+        fresh = c03.make_int_computer(case)[1]
+        ref = c03.run_ops_impl(fresh, case["x"], ["F"])[0]
+        print("fresh instance, compute_full:", ref[0], c03.int_rows(ref[1]) if ref[0] == "ok" else None)
     print("oracle:", rp.get("oracle"), "expected", rp.get("expected"), "got", rp.get("got"))
     return 0
